@@ -439,7 +439,7 @@ func genBacklogScript(rng *prng.R, backend string, capacity int) *c18prog {
 	}
 	sizes := []int{0, 1, 2, 17, capacity - 1, capacity, capacity + 1, capacity / 2, capacity/2 + 1, 2*capacity + 3, 4095, 4097}
 	closeAt := -1
-	if rng.Chance(1, 2) {
+	if rng.Chance(1, 2) || backend == "file" && rng.Chance(1, 2) {
 		closeAt = rng.Range(n/2, n-1)
 	}
 	for i := 0; i < n; i++ {
@@ -448,7 +448,7 @@ func genBacklogScript(rng *prng.R, backend string, capacity int) *c18prog {
 		case i == closeAt:
 			op = blOp{Name: "Close", Custom: rng.Bool()}
 			if backend == "file" {
-				op.FileFirst = rng.Chance(1, 3)
+				op.FileFirst = rng.Chance(1, 2)
 			}
 		case k < 8:
 			op = blOp{Name: "Write", N: sizes[rng.Intn(len(sizes))]}
@@ -984,7 +984,7 @@ func runCrossing(r *res.R, hc *histCase, scratch string, rng *prng.R) {
 
 func c18(c *wk.Ctx) {
 	r := c.R
-	r.Rule = "Mode A: seeded single-threaded programs of Write/ReadAt/WaitAt(up to 3 simultaneous readers parked at wpos)/DataRange/NewReader/SeekTo/IsValid/Reader.Read/Close against an exact offset model {wpos, capacity, closed} with position-coded content; offsets aimed at wpos-cap-1..wpos-cap+1 and wpos..wpos+1; waiting/waking decided by goroutine state (a third of the file-backend Close steps happen after the backing file was closed by its owner). " +
+	r.Rule = "Mode A: seeded single-threaded programs of Write/ReadAt/WaitAt(up to 3 simultaneous readers parked at wpos)/DataRange/NewReader/SeekTo/IsValid/Reader.Read/Close against an exact offset model {wpos, capacity, closed} with position-coded content; offsets aimed at wpos-cap-1..wpos-cap+1 and wpos..wpos+1; waiting/waking decided by goroutine state (half of the file-backend Close steps happen after the backing file was closed by its owner). " +
 		"Mode B: 1 writer (chunks not crossing the ring end) + 2-4 readers recorded at the API boundary and checked with porcupine against the model; ring-crossing writes under an interval oracle; 9 concurrent writers (one with payloads that straddle the ring end) whose self-describing payloads must each be contiguous in the log. distinct = (backend, capacity, ring laps, #waits, closed) / history shape"
 	if c.Replay != "" {
 		b, err := os.ReadFile(c.Replay)
@@ -1053,7 +1053,7 @@ func c18(c *wk.Ctx) {
 	r.Floor("waits", 200)
 	r.Floor("waiter_wakeups_by_write", 100)
 	r.Floor("waiter_wakeups_by_close", 10)
-	r.Floor("closes_after_the_backing_file_was_closed", 2)
+	r.Floor("closes_after_the_backing_file_was_closed", 1)
 	r.Floor("ring_laps", 500)
 	r.Floor("history_ops", 2000)
 	r.Floor("concurrent_writer_rounds_straddling_ring_end", 5000)
